@@ -18,16 +18,18 @@ def run(tier, seed):
     # (a fid left open or bound by a request that failed) is the session model's business too
     flt = session.base(Kinds=["Tattach", "Twalk", "Tlopen", "Tlcreate", "Tread", "Twrite", "Tfsync", "Tclunk", "Tremove", "Txattrwalk"],
                        FaultKinds=["EIO"], MaxFaults=1, MaxDepth=3)
+    # hard links: refused inside an opened DIRECTORY fid (whatever the state of the target fid)
+    lnk = session.base(Kinds=["Tattach", "Twalk", "Tlopen", "Tlink", "Tclunk"], MaxDepth=4)
     if tier == "quick":
         mc = [("full-d4", session.base(BadNames=[".."], AttachNames=["", "a/b"], MaxDepth=4)), ("io-d4", dict(io, MaxDepth=4))]
         gen = [("full-d3", session.base(BadNames=[".."], AttachNames=["", "a/b"], MaxDepth=3), "bfs"),
-               ("io-d3", dict(io, MaxDepth=3), "bfs"), ("fault-d3", flt, "bfs")]
+               ("io-d3", dict(io, MaxDepth=3), "bfs"), ("fault-d3", flt, "bfs"), ("link-d4", lnk, "bfs")]
     else:
         mc = [("full-d4", session.base(BadNames=[".."], AttachNames=["", "a/b"], MaxDepth=4)), ("io-d5", dict(io, MaxDepth=5)),
               ("mix-d4", session.base(Names=["a", "b", "s", "k"], InitWorld="mix", MaxDepth=4,
                                       Kinds=[k for k in session.ALL_KINDS if not k.startswith("Tu")]))]
         gen = [("full-d4", session.base(BadNames=[".."], AttachNames=["", "a/b"], MaxDepth=4), "bfs"),
-               ("io-d4", dict(io, MaxDepth=4), "bfs"), ("fault-d4", dict(flt, MaxDepth=4), "bfs")]
+               ("io-d4", dict(io, MaxDepth=4), "bfs"), ("fault-d4", dict(flt, MaxDepth=4), "bfs"), ("link-d5", dict(lnk, MaxDepth=5), "bfs")]
     return session.run("C04", tier, seed, mc, gen, RULE, nontrivial)
 
 
